@@ -34,7 +34,13 @@ class IkeSaController:
         return next(x for x in self.ike_sas if x.my_spi == spi)
 
     def _get_ike_sa_by_peer_addr(self, peer_addr):
-        return next(x for x in self.ike_sas if x.peer_addr == peer_addr)
+        # only an established IKE_SA, or one we are establishing ourselves, will ever negotiate what is handed to it:
+        # half-open responder IKE_SAs and those being closed or already replaced would just queue it forever
+        negotiating = (IkeSa.State.INIT_REQ_SENT, IkeSa.State.AUTH_REQ_SENT)
+        closing = (IkeSa.State.DEL_IKE_SA_REQ_SENT, IkeSa.State.DEL_AFTER_REKEY_IKE_SA_REQ_SENT)
+        usable = [x for x in self.ike_sas if x.peer_addr == peer_addr and x.state not in closing
+                  and (x.state in negotiating or IkeSa.State.ESTABLISHED <= x.state < IkeSa.State.REKEYED)]
+        return next(x for x in sorted(usable, key=lambda x: x.state in negotiating))
 
     def _get_ike_sa_by_child_sa_spi(self, spi):
         for ike_sa in self.ike_sas:
